@@ -38,7 +38,14 @@ impl BackendCfg {
             self.metric, self.dim, self.capacity, self.snap_interval, self.rotation, self.fsync
         )
     }
+    /// hnsw.disable_normalization_check (metric name ending in '!')
+    pub fn no_norm_check(&self) -> bool {
+        self.metric.ends_with('!')
+    }
     pub fn open_fresh(&self, dir: &Path) -> anyhow::Result<HnswBackend> {
+        if self.no_norm_check() {
+            return HnswBackend::with_persistence_with_hnsw_params(self.dim, self.metric(), vec![], vec![], self.capacity, dir, self.fsync(), self.snap_interval, self.rotation, 16, 200, true);
+        }
         HnswBackend::with_persistence(
             self.dim,
             self.metric(),
@@ -71,6 +78,9 @@ impl BackendCfg {
         }
     }
     pub fn recover(&self, dir: &Path) -> anyhow::Result<HnswBackend> {
+        if self.no_norm_check() {
+            return HnswBackend::recover_with_hnsw_params(self.dim, self.metric(), dir, self.capacity, self.fsync(), self.snap_interval, self.rotation, MetricsCollector::new(), 16, 200, true);
+        }
         HnswBackend::recover(
             self.dim,
             self.metric(),
